@@ -114,6 +114,14 @@ pub fn explore(scn: &dyn Scenario, b: Bounds, stop_at_first: bool) -> Explored {
         flags: HashSet::new(),
         sample: None,
     };
+    // warm-up: code under test may initialise per-thread or process-wide state lazily on first use
+    // (thread-locals of the pooled threads, statics); that happens once, here, and is not part of
+    // any compared execution
+    let w = run(scn, vec![], vec![], false);
+    if w.watchdog {
+        ex.error = Some(format!("{}: watchdog: a model thread is blocked outside the scheduler", scn.name()));
+        return ex;
+    }
     // determinism: the default schedule, run twice, must behave identically
     let a = run(scn, vec![], vec![], true);
     let b2 = run(scn, vec![], vec![], true);
